@@ -250,7 +250,7 @@ Print Assumptions C12_fs_coarse_histories_covered.
 (* Non-vacuity: two mountpoints share layer 0 of image 0 (neighbours 1 and 2 pre-resolved and released); layer and
    blob expire, mountpoint 0 is unmounted (evicting Close): mountpoint 1 is still registered and serves. *)
 Example C12_nonvacuous_mounted :
-  F.cfrun F.finit [F.CMount 0 0 [1; 2] [[]; []; []]; F.CMount 1 0 [1; 2] [[]; []; []];
+  F.cfrun F.finit [F.CMount 0 0 true [1; 2] [[]; []; []]; F.CMount 1 0 true [1; 2] [[]; []; []];
                    F.COp (F.FExpireL 0); F.COp (F.FExpireB 0); F.COp (F.FUnmount 0); F.COp (F.FUse 1);
                    F.COp (F.FCheck 1 false RfErr); F.COp (F.FUnmount 1)] =
   [(ENone, (3, 3, 3, 1)); (ENone, (3, 3, 3, 2)); (ENone, (3, 3, 3, 2)); (ENone, (3, 3, 3, 2)); (ENone, (3, 3, 3, 1));
@@ -264,3 +264,11 @@ Theorem C12_check_refused_refresh_changes_nothing :
 Proof. exact Proofs.FsMount.check_refused_nop. Qed.
 Print Assumptions C12_check_refused_refresh_changes_nothing.
 
+(* Non-vacuity (Mount refused by verification): the layer is resolved, the reference released; after expiry nothing remains. *)
+Example C12_nonvacuous_mount_refused :
+  F.cfrun F.finit [F.CMount 0 0 false [1; 2] [[]; []; []]; F.COp (F.FUse 0);
+                   F.COp (F.FExpireL 0); F.COp (F.FExpireB 0); F.COp (F.FExpireL 1); F.COp (F.FExpireB 1);
+                   F.COp (F.FExpireL 2); F.COp (F.FExpireB 2)] =
+  [(EErr, (3, 3, 3, 0)); (EErr, (3, 3, 3, 0)); (ENone, (2, 2, 2, 0)); (ENone, (2, 2, 2, 0)); (ENone, (1, 1, 1, 0));
+   (ENone, (1, 1, 1, 0)); (ENone, (0, 0, 0, 0)); (ENone, (0, 0, 0, 0))].
+Proof. vm_compute. reflexivity. Qed.
